@@ -14,6 +14,16 @@ def check(ix, rep):
     for m in M.monitors(ix):
         if m.kind == 'discrete-online':
             step.check_step(ix, rep, m)
+    # 1b. a robustness value is a number, never a flag (0.0 is a legitimate value): operations and the update visitor
+    from sa.rules import truthy
+    fs = []
+    for ncname, opc in sorted(exh.constructed_operations(ix, on).items()):
+        for mn in ('update', 'reset', '__init__'):
+            g = opc.methods.get(mn)
+            if g is not None and mn == 'update':
+                fs.append(g)
+    nt = truthy.check_functions(ix, rep, fs, 'discrete-online')
+    rep.floor('update() methods checked for truth-value use of robustness', nt, 28)
     # 3. construction and update visitors are exhaustive
     cells = exh.exh_monitor(ix, rep, on)
     rep.floor('dispatch cells of the online construction visitor', cells, 39)
